@@ -40,6 +40,13 @@ def c15(ctx):
     except Exception as e:  # generated file missing: translator failed
         paths = []
     nonflat = [(n, p) for n, p in paths if not _flat(p)]
+    try:
+        gen = open(os.path.join(ctx["coq"], "Generated", "LockProgs.v")).read()
+        for fn, so, sl in re.findall(r'\("([A-Za-z0-9_]+)", (true|false), (true|false)\)', gen):
+            if so == "true" and sl == "false":
+                nonflat.append((fn, ["derived bundle shares token objects but not the lock"]))
+    except Exception:
+        pass
     distinct = {(n, tuple(p)) for n, p in paths if p}
     cov = {"evaluations": len(paths), "distinct_nontrivial": len(distinct),
            "samples": [{"method": n, "path": p} for n, p in paths[:6]],
